@@ -26,6 +26,7 @@ def parseBase (s : String) : Option Base :=
   else if s == "bad" then some .badfile
   else if s == "master" then some .master
   else if s.startsWith "b" then (s.drop 1).toString.toNat?.map .bp
+  else if s.startsWith "i" then (s.drop 1).toString.toNat?.map .ih
   else none
 
 def parseName (s : String) : Option Name :=
@@ -58,6 +59,8 @@ def parseOp1 (s : String) : Option Op :=
   | ["mvarg"] => some .mvarg
   | ["nop"] => some .nop
   | ["obf"] => some .obf
+  | ["ret0"] => some .ret0
+  | ["ra", a, v] => (parseOid a).map (.ra · v)
   | _ => none
 
 /-- `ct,<op>` = catch (<op>) (one level) -/
